@@ -213,7 +213,8 @@ def _type_dirs(rng, tags, own=""):
 
 def render_sdl(schema, rng=None, order=None, extend=False, comments=False, multiline=True, declare_builtins=False, tags=False):
     """order: list of names (default schema.order). extend: split a random subset of the
-    fields of some object types into `extend type` blocks (needs rng)."""
+    fields of some object types into `extend type` blocks (needs rng); extend="all": every object type with >= 2
+    fields is split and some of its interfaces always arrive with the extension."""
     s = schema
     out = []
     names = list(order) if order is not None else list(s.order)
@@ -247,11 +248,11 @@ def render_sdl(schema, rng=None, order=None, extend=False, comments=False, multi
             impl = list(d.get("implements", []))
             ext_f = []
             ext_impl = []
-            if extend and rng is not None and len(fields) >= 2 and rng.random() < 0.5:
+            if extend and rng is not None and len(fields) >= 2 and (extend == "all" or rng.random() < 0.5):
                 # keep order: the tail goes to the extension, so the field order is unchanged
                 cut = rng.randint(1, len(fields) - 1)
                 fields, ext_f = fields[:cut], fields[cut:]
-                if impl and rng.random() < 0.6:
+                if impl and (extend == "all" or rng.random() < 0.6):
                     # `extend type T implements I { .. }`: some interfaces arrive with the extension
                     k = rng.randint(1, len(impl))
                     impl, ext_impl = impl[: len(impl) - k], impl[len(impl) - k:]
